@@ -46,6 +46,15 @@ def build_calls(quick):
     for d in ["duckdb", "bigquery", "snowflake", "tsql", "spark", "hive", "databricks", "trino", "athena", "presto", "clickhouse", "oracle"]:
         for s in [x for c, x, t in statements(d, 1)][::(9 if quick else 3)]:
             add("transpile", s, d, CORE_TARGETS[len(calls) % len(CORE_TARGETS)])
+    # the repository's dialect-test statements, each transpiled from its own dialect (set / dict iteration in dialect-only
+    # parser and generator paths: properties, options, hints, pivots, struct fields...)
+    from vlib import corpus
+
+    dts = corpus.dialect_test_sql()
+    for i, (d, s) in enumerate(dts[::(2 if quick else 1)]):
+        add("transpile", s, d, d if i % 2 == 0 else CORE_TARGETS[i % len(CORE_TARGETS)])
+        if i % 4 == 0:
+            add("parse_repr", s, d)
     qs = [s for c, s, t in queries(2, opt_extras=True)]
     for s in qs[::(2 if quick else 1)]:
         add("optimize", s, "duckdb", "opt")
@@ -227,7 +236,7 @@ def run(ctx: Ctx) -> None:
             "distinct_nontrivial": nontrivial,
             "rule": f"matrix cells = {S} hash seeds x forward order, {S // (2 if quick else 1)} seeds x reverse order, 3 seeds x every-third-call-twice, all 6 permutations of 4 "
                     f"cross-dialect groups (each permutation in its own cold process), {len(alone)} calls alone in a fresh process, 2 reuse cells; "
-                    f"{len(calls)} calls (transpile into 8 targets and from 12 source dialects, tokenize, pretty, annotate, qualify, optimize on the "
+                    f"{len(calls)} calls (transpile into 8 targets and from 12 source dialects, every" + (" second" if quick else "") + " statement of tests/dialects/*.py from its own dialect, tokenize, pretty, annotate, qualify, optimize on the "
                     "optimizer fragment, simplify / normalize / typed simplify on G_bool + multi-operand connectors, lineage on composed "
                     "relations); every digest must equal the seed-0 forward cell. non-trivial = calls that go through set/dict-keyed optimizer code.",
             "calls": len(calls),
